@@ -295,7 +295,7 @@ namespace mon
       [[nodiscard]] static bool match( In& in, S&&... st )
       {
          using RT = typename rule_t_of< Rule >::type;
-         constexpr unsigned flags = ( A == pegtl::apply_mode::action ? F_ACT : 0u ) | ( M == pegtl::rewind_mode::required ? F_REQUIRED : 0u ) | ( is_lookahead< RT > ? F_LOOKAHEAD : 0u ) | ( is_mustlike< RT > ? F_MUSTLIKE : 0u ) | ( Control< Rule >::enable ? F_ENABLED : 0u ) | ( WithUnwind ? F_HAS_UNWIND : 0u ) | ( is_enable_rule< RT > ? F_ENABLE_RULE : 0u ) | ( is_disable_rule< RT > ? F_DISABLE_RULE : 0u ) | ( CFam ? F_CFAM_B : 0u ) | ( is_try< RT > ? F_TRY : 0u ) | ( afam_of< Action >::v ? F_AFAM_B : 0u );
+         constexpr unsigned flags = ( A == pegtl::apply_mode::action ? F_ACT : 0u ) | ( M == pegtl::rewind_mode::required ? F_REQUIRED : 0u ) | ( is_lookahead< RT > ? F_LOOKAHEAD : 0u ) | ( is_mustlike< RT > ? F_MUSTLIKE : 0u ) | ( control_impl::enable ? F_ENABLED : 0u ) | ( WithUnwind ? F_HAS_UNWIND : 0u ) | ( is_enable_rule< RT > ? F_ENABLE_RULE : 0u ) | ( is_disable_rule< RT > ? F_DISABLE_RULE : 0u ) | ( CFam ? F_CFAM_B : 0u ) | ( is_try< RT > ? F_TRY : 0u ) | ( afam_of< Action >::v ? F_AFAM_B : 0u );
          on_enter( name_of< Rule >, name_of< RT >, rid< Rule >::v, flags, &in, mk( in ), window_end( in ) );
          leave_guard g{ &in, +[]( const void* p ) noexcept { return mk( *static_cast< const In* >( p ) ); } };
          const bool r = pegtl::normal< Rule >::template match< A, M, Action, Control >( in, st... );
